@@ -22,6 +22,16 @@ RULE = (
     'shard sweep frame x placement x geometry-dependent target and non-compact layout x {direct, indirect, elastic}; '
     'the monitor on convert builds the dense twin (event buffer flat, per-pixel geometry gathered per event), re-runs '
     'the dense conversion, and evaluates the definitions in long double per event; '
+    'every shard also runs call SEQUENCES and input classes that one call on fresh data never shows: the converted '
+    'object converted again (same target, another target, a by-product as target, the first target as origin), the same '
+    'input twice, display / copy / comparison between two calls, a conversion after a refused request; DataArray and '
+    'Dataset (two binned items, with / without a dense item); event coordinates next to the origin whose NAME means '
+    'something to the graphs (every reserved name once as a bystander the conversion does not read, per the derivation '
+    'model rv.oracle.convgraph; event coordinates shadowing a dense one with equal values); an event coordinate with '
+    'variances (first-order propagation of the power laws); masks along the renamed dimension and on the 2-d grid; pixel '
+    'and event-buffer dimensions named like internal dims / coordinates; every calling convention and str-like / '
+    'bool-like argument type; the same conversion through transform_coords with deduce_conversion_graph / '
+    "conversion_graph / the kernels as nodes of a user's graph; one shard with > 2^20 events per conversion; "
     'distinct = (origin, target, layout, event dtype, geometry kind, edges, container) signatures'
 )
 ASSUMPTIONS = [
@@ -83,6 +93,56 @@ def is_edges(coord, data):
     return any(coord.sizes[d] == data.sizes[d] + 1 for d in coord.dims if d in data.dims)
 
 
+def flat_events(v: sc.Variable, idx, dim) -> sc.Variable:
+    """The selected entries of an event-buffer coordinate as a dense 1-d variable (values, variances, vectors)."""
+    vals = np.asarray(v.values)[idx]
+    if v.dtype == sc.DType.vector3:
+        return sc.vectors(dims=[dim], values=vals.reshape(-1, 3), unit=v.unit)
+    var = np.asarray(v.variances)[idx] if v.variances is not None else None
+    return sc.array(dims=[dim], values=vals, variances=var, unit=v.unit, dtype=v.dtype)
+
+
+def plain(s):
+    """np.str_, str subclasses and (str, Enum) members -> the str they are."""
+    return str.__str__(s) if isinstance(s, str) else s
+
+
+def binned_items(d):
+    """[(item name or None, binned data array)] of a data array / dataset."""
+    if isinstance(d, sc.DataArray):
+        return [(None, d)] if d.bins is not None else []
+    if isinstance(d, sc.Dataset):
+        return [(str(k), d[k]) for k in d.keys() if d[k].bins is not None]
+    return []
+
+
+# ---- which coordinates does a conversion read?  Decided by the derivation model written from the user guide
+# (rv.oracle.convgraph: "if a coordinate is present use it, otherwise derive it from its inputs"), not by the package:
+# the energy mode follows from the dense (beamline) coordinates, the leaves of the derivation are what is read, the
+# nodes on the way are what is produced.  Every other coordinate -- whatever its name -- is unrelated to the
+# conversion: it has to come through unchanged, and (event level) the dense formula is evaluated without it.
+UNRELATED_BY_NAME = frozenset({'unrelated_ev', 'unrelated_px'})
+
+
+def roles(d, origin, target, scatter):
+    """(names of unrelated event coordinates, names of unrelated dense coordinates) of one binned data array."""
+    from rv.oracle import convgraph as G
+    ev_names = {str(k) for k in d.bins.constituents['data'].coords.keys()}
+    dense_names = {str(k) for k, v in d.coords.items() if v.bins is None}
+    try:
+        mode = G.energy_mode(dense_names, origin, target)
+        table = G.rules(origin, target, scatter, mode)
+        present = dense_names | ev_names
+        leaves = set(G.used_inputs(target, present, table))
+        planned = set(G.plan(target, present, table))
+    except (G.Refuse, KeyError):
+        # outside the model: only the coordinates the generator itself calls unrelated
+        return (frozenset(n for n in ev_names if n.startswith('unrelated')),
+                frozenset(n for n in dense_names if n.startswith('unrelated')))
+    touched = leaves | {origin, target} | {n for n in ev_names | dense_names if G.node_of(n) in planned}
+    return frozenset(ev_names - touched), frozenset(dense_names - touched)
+
+
 # ------------------------------------------------- independent definitions ---
 # Both dense twins run the package's own kernels: a defect that does not depend on binning (a wrong angle for one
 # orientation of the frame, a wrong constant) is shared by the twins.  The property speaks of "the value the dense
@@ -93,6 +153,9 @@ TOL64, TOL32 = 1e-11, 1e-5
 SMALL_ANGLE = 1e-3      # rad; below, the float64 angle of the package is only good to ~eps/angle relative: not judged
 ELASTIC_DEF = {('tof', 'wavelength'), ('tof', 'energy'), ('tof', 'dspacing'), ('tof', 'Q'),
                ('wavelength', 'energy'), ('wavelength', 'dspacing'), ('wavelength', 'Q')}
+# exponent of the event coordinate in each elastic closed form (y = c x^p at fixed pixel geometry)
+POWER = {('tof', 'wavelength'): 1, ('tof', 'energy'): -2, ('tof', 'dspacing'): 1, ('tof', 'Q'): -1,
+         ('wavelength', 'energy'): -2, ('wavelength', 'dspacing'): 1, ('wavelength', 'Q'): -1}
 QVEC_DEF = ('Qx', 'Qy', 'Qz', 'Q_vec')       # documented: Q = k_i - k_f = 2 pi / lambda (e_i - e_f), lab frame
 GEOM_DEF = ('two_theta', 'L1', 'L2', 'Ltotal', 'incident_beam', 'scattered_beam')
 
@@ -190,19 +253,55 @@ class Monitor:
         self.ctx = ctx
         self.scn = scn
         self.meta = {}
+        self.expect_refusal = False      # set by the workload for a call the derivation model refuses
 
+    # ---- observation through the tracer (scn.convert) ...
     def on_start(self, ev):
-        d = ev.args.get('data')
-        if not isinstance(d, sc.DataArray) or d.bins is None:
+        return self.pre(ev.args.get('data'), ev.args.get('origin'), ev.args.get('target'), ev.args.get('scatter'))
+
+    def on_return(self, ev):
+        if ev.pre is None:
+            return
+        self.post(ev.pre, ev.args['data'], ev.result, ev.exc, 'convert')
+
+    # ---- ... and for results obtained another way (transform_coords with the package's graphs / kernels)
+    def observe(self, d, origin, target, scatter, fn, how):
+        pre = self.pre(d, origin, target, scatter)
+        out = exc = None
+        try:
+            out = fn()
+        except Exception as e:  # noqa: BLE001  judged in post()
+            exc = e
+        if pre is not None:
+            self.post(pre, d, out, exc, how)
+        return out
+
+    def pre(self, d, origin, target, scatter):
+        try:
+            origin, target = plain(origin), plain(target)
+            items = binned_items(d)
+            if not items:
+                return None
+            pre = {'input_fp': fp(d), 'origin': origin, 'target': target, 'scatter': bool(scatter), 'items': {}}
+            for name, item in items:
+                ev_keep, dense_keep = roles(item, origin, target, bool(scatter))
+                pre['items'][name] = {'ev_keep': ev_keep, 'dense_keep': dense_keep,
+                                      'names': (sorted(map(str, item.bins.constituents['data'].coords.keys())),
+                                                sorted(map(str, item.coords.keys())), sorted(map(str, item.masks.keys()))),
+                                      'parts': self.parts(item, ev_keep, dense_keep)}
+            return pre
+        except Exception:  # noqa: BLE001
+            self.ctx.oracle_error('C06 monitor (before the call)')
             return None
-        return {'input_fp': fp(d), 'parts': self.parts(d)}
 
     @staticmethod
-    def parts(d):
+    def parts(d, ev_keep, dense_keep):
         """Semantic content that must survive: per-bin event lists (in order) and bin-level items.
 
         Raw begin/end indices and the name of a renamed dimension are representation, not content:
         the result may store its events compacted and has the origin dimension renamed.
+        ``ev_keep`` / ``dense_keep``: names of the event / dense coordinates the conversion does not read
+        (see roles()).
         """
         tab = d.bins.constituents['data']
         idx = event_index(d.data)
@@ -221,26 +320,59 @@ class Monitor:
             'sizes': fp(sizes),
             'weights': ev(tab.data),
             'ev_masks': {str(k): ev(v) for k, v in tab.masks.items()},
-            'ev_coords': {str(k): ev(v) for k, v in tab.coords.items() if str(k).startswith('unrelated')},
+            'ev_coords': {str(k): ev(v) for k, v in tab.coords.items() if str(k) in ev_keep},
             'masks': {str(k): dn(v) for k, v in d.masks.items()},
-            'coords': {str(k): dn(v) for k, v in d.coords.items() if str(k).startswith('unrelated')},
+            'coords': {str(k): dn(v) for k, v in d.coords.items() if str(k) in dense_keep and v.bins is None},
         }
 
-    def on_return(self, ev):
+    def post(self, pre, d, out, exc, how):
         ctx = self.ctx
-        pre = ev.pre
-        if pre is None:
+        origin, target, scatter = pre['origin'], pre['target'], pre['scatter']
+        case = {**self.meta, 'origin': origin, 'target': target, 'how': how, 'input': describe(d)}
+        # ---- the input object is not modified (whatever the outcome of the call)
+        try:
+            modified = fp(d) != pre['input_fp']
+        except Exception:  # noqa: BLE001
+            ctx.oracle_error('C06 monitor (input fingerprint)')
             return
-        d, origin, target, scatter = (ev.args[k] for k in ('data', 'origin', 'target', 'scatter'))
-        case = {**self.meta, 'origin': origin, 'target': target, 'input': describe(d)}
-        if ev.exc is not None:
-            ctx.violation('raised', f'convert raised {type(ev.exc).__name__}: {ev.exc}', case)
+        if modified:
+            lost = []
+            for name, item in binned_items(d):
+                before = pre['items'].get(name)
+                if before is not None:
+                    now = self.parts(item, before['ev_keep'], before['dense_keep'])
+                    lost += [f'{part}' for part, h in before['parts'].items() if now.get(part) != h]
+                    names = (sorted(map(str, item.bins.constituents['data'].coords.keys())),
+                             sorted(map(str, item.coords.keys())), sorted(map(str, item.masks.keys())))
+                    for label, b_, n_ in zip(('event coordinates', 'coordinates', 'masks'), before['names'], names, strict=True):
+                        if b_ != n_:
+                            lost.append(f'{label} {b_} -> {n_}')
+            ctx.violation('input_modified', f'{how} modified its binned input'
+                          + (f' (changed: {", ".join(lost)})' if lost else ''), case)
+        if self.expect_refusal:
+            # a request the derivation model refuses (no rule for the target): whether and how the package refuses
+            # is C02's business; here only the input had to stay as it was
+            ctx.event('refused request')
+            ctx.count('refusal: ' + (type(exc).__name__ if exc is not None else 'none'))
             return
-        out = ev.result
+        if exc is not None:
+            ctx.violation('raised', f'{how} raised {type(exc).__name__}: {exc}', case)
+            return
         ctx.event('convert(binned)')
-        # ---- the input object is not modified
-        if fp(d) != pre['input_fp']:
-            ctx.violation('input_modified', 'convert modified its binned input', case)
+        container = 'Dataset' if isinstance(d, sc.Dataset) else 'DataArray'
+        if isinstance(d, sc.Dataset):
+            ctx.event('dataset item')
+            if not isinstance(out, sc.Dataset) or set(out.keys()) != set(d.keys()):
+                ctx.violation('items_changed', 'the result of converting a dataset is not a dataset with the same items',
+                              case)
+                return
+        for name, item in binned_items(d):
+            before = pre['items'][name]
+            self.judge(item, out[name] if isinstance(d, sc.Dataset) else out, before, origin, target, scatter,
+                       dict(case, container=container, **({'item': name} if name is not None else {})))
+
+    def judge(self, d, out, pre, origin, target, scatter, case):
+        ctx = self.ctx
         try:
             out_tab = out.bins.constituents['data']
             geom_target = target in ('two_theta', 'L1', 'L2', 'Ltotal', 'incident_beam', 'scattered_beam')
@@ -268,7 +400,10 @@ class Monitor:
                 ctx.violation('no_event_target', f'no event coordinate {target!r} in the result', case)
                 return
             # ---- preservation
-            before, after = pre['parts'], self.parts(out)
+            ev_keep, dense_keep = pre['ev_keep'], pre['dense_keep']
+            before, after = pre['parts'], self.parts(out, ev_keep, dense_keep)
+            if ev_keep - UNRELATED_BY_NAME:
+                ctx.event('bystander event coordinate judged')
             if after['sizes'] != before['sizes']:
                 ctx.violation('membership_changed', 'number of events per bin changed', case, part='sizes')
             if after['weights'] != before['weights']:
@@ -291,15 +426,23 @@ class Monitor:
                     continue
                 coords[k] = gather(v, d.data)
             for k, v in in_tab.coords.items():
-                if k.startswith('unrelated'):
-                    continue
-                coords[k] = sc.array(dims=['event'], values=np.asarray(v.values)[idx], unit=v.unit, dtype=v.dtype)
+                if str(k) in ev_keep:
+                    continue      # not read by this conversion: the twin does without it
+                if str(k) in coords:
+                    ctx.event('event coordinate shadowing a dense one')
+                coords[k] = flat_events(v, idx, 'event')
             twin = sc.DataArray(sc.ones(dims=['event'], shape=[len(idx)]), coords=coords)
             dense = self.scn.convert(twin, origin, target, scatter=scatter)
             want = dense.coords[target]
             got = out_tab.coords[target]
-            gv = np.asarray(got.values)[event_index(out.data)]
+            oidx = event_index(out.data)
+            gv = np.asarray(got.values)[oidx]
             ok = got.unit == want.unit and got.dtype == want.dtype and same_bits(gv, np.asarray(want.values))
+            if (got.variances is None) != (want.variances is None):
+                ok = False
+            elif got.variances is not None:
+                ctx.event('twin variances')
+                ok = ok and same_bits(np.asarray(got.variances)[oidx], np.asarray(want.variances))
             ctx.count('events_compared', len(idx))
             ctx.event('twin')
             if not ok:
@@ -316,7 +459,8 @@ class Monitor:
             # ---- independent definitions (the twins evaluate the package's kernels and share whatever does not
             # depend on binning)
             if (origin, target) in ELASTIC_DEF:
-                self.event_definition(d, in_tab, idx, got, gv, origin, target, scatter, case)
+                self.event_definition(d, in_tab, idx, got, gv, origin, target, scatter, case,
+                                      gvar=None if got.variances is None else np.asarray(got.variances)[oidx])
             elif target in QVEC_DEF:
                 self.qvec_definition(d, in_tab, idx, got, gv, origin, target, scatter, case)
             # ---- inelastic targets: NaN exactly for the unphysical events, decided by an independent t0
@@ -349,10 +493,9 @@ class Monitor:
                                 vv = vv[dim, int(ii)]
                         pc[k] = vv.copy()
                     for k, v in in_tab.coords.items():
-                        if k.startswith('unrelated'):
+                        if str(k) in ev_keep:
                             continue
-                        pc[k] = sc.array(dims=['ev_of_pixel'], values=np.asarray(v.values)[b_[flat_i]:e_[flat_i]],
-                                         unit=v.unit, dtype=v.dtype)
+                        pc[k] = flat_events(v, np.arange(b_[flat_i], e_[flat_i]), 'ev_of_pixel')
                     ptwin = sc.DataArray(sc.ones(dims=['ev_of_pixel'], shape=[int(e_[flat_i] - b_[flat_i])]), coords=pc)
                     pw = self.scn.convert(ptwin, origin, target, scatter=scatter).coords[target]
                     g_ = got_all[ob_[flat_i]:ob_[flat_i] + (e_[flat_i] - b_[flat_i])]
@@ -389,7 +532,7 @@ class Monitor:
         single = dtype == sc.DType.float32 or gm.single
         return (TOL32 if single else TOL64), ('float32' if single else 'float64')
 
-    def event_definition(self, d, in_tab, idx, got, gv, origin, target, scatter, case):
+    def event_definition(self, d, in_tab, idx, got, gv, origin, target, scatter, case, gvar=None):
         ctx = self.ctx
         from rv.oracle import si
         try:
@@ -424,6 +567,42 @@ class Monitor:
                           f"its pixel's geometry: relative error {worst:.3g} > {tol:g}",
                           dict(case, got=repr(g_[i]), expected=repr(float(e_[i])), n_differ=int(np.sum(err > tol))),
                           part='definition', precision=prec)
+        # ---- an event coordinate with variances: every elastic target is a power law c x^p of the event coordinate x
+        # (the geometry carries no variances), so first-order propagation is unambiguous:
+        # var(y) = (p y / x)^2 var(x)
+        if xc.variances is None:
+            return
+        try:
+            pw = POWER[(origin, target)]
+            vin = np.asarray(xc.variances)[idx].astype(si.LD)
+            xn = np.asarray(xc.values)[idx].astype(si.LD)
+            vexp = ((pw * exp / xn) ** 2 * vin)[judged]
+        except Exception:  # noqa: BLE001
+            ctx.oracle_error('C06 event definition (variances)')
+            return
+        ctx.event('definition variances')
+        if gvar is None:
+            ctx.violation('event_variance', f'event {target} lost the variances of the event coordinate', case,
+                          part='definition-variance', precision=prec)
+            return
+        verr = np.asarray(si.relerr(gvar[judged], vexp), dtype=np.float64)
+        finite = np.isfinite(np.asarray(gvar[judged], dtype=np.float64))
+        if prec == 'float32':
+            # the intermediate products of scipp's float32 propagation (x^(2p-2) var) leave the float32 range for tof
+            # in ns / lengths in mm although the result is representable: out of range is not judged, only counted
+            ctx.count('undecided: float32 variance not finite (intermediate out of range)', int(np.sum(~finite)))
+            verr, vexp, finite = verr[finite], vexp[finite], finite[finite]
+            if not verr.size:
+                return
+        verr = np.where(finite, verr, np.inf)
+        vworst = float(np.max(verr))
+        ctx.dev(f'definition relerr of the variance {prec}: {target} from {origin}', vworst)
+        if not vworst <= 4 * tol:
+            i = int(np.argmax(verr))
+            ctx.violation('event_variance', f'variance of event {target} differs from first-order propagation '
+                          f'(p y / x)^2 var(x), p = {pw}: relative error {vworst:.3g} > {4 * tol:g}',
+                          dict(case, got_relerr=repr(verr[i]), expected=repr(float(vexp[i]))),
+                          part='definition-variance', precision=prec)
 
     def qvec_definition(self, d, in_tab, idx, got, gv, origin, target, scatter, case):
         ctx = self.ctx
@@ -713,6 +892,9 @@ def gen(rng, ctx, force=None):
         ctx.hit('conversion without scattering on binned data')
     layout = force.get('layout') or LAYOUTS[rng.integers(0, len(LAYOUTS))]
     evdt = ['float64', 'float32', 'int64'][rng.integers(0, 3)] if origin == 'tof' else ['float64', 'float32'][rng.integers(0, 2)]
+    if force.get('ev_variances') and evdt == 'int64':
+        evdt = 'float64'      # scipp has no variances for integers
+    edim = force.get('buffer_dim', 'event')
     npix = int(rng.integers(1, 9))
     if layout in ('slice_pixels', 'one_pixel'):
         npix = max(npix, 2)
@@ -756,16 +938,21 @@ def gen(rng, ctx, force=None):
     else:
         ounit = ['angstrom', 'nm'][rng.integers(0, 2)]
         vals = rng.uniform(0.5, 10.0, size=nbuf) * (0.1 if ounit == 'nm' else 1.0)
-    evcoord = sc.array(dims=['event'], values=vals, unit=ounit, dtype=evdt)
-    weights = sc.array(dims=['event'], values=rng.random(nbuf), variances=rng.random(nbuf), unit='counts',
+    evcoord = sc.array(dims=[edim], values=vals, unit=ounit, dtype=evdt)
+    if force.get('ev_variances'):
+        # an event coordinate with its own uncertainty (1 % .. 5 % relative), e.g. a resolution-smeared tof
+        evcoord.variances = (np.asarray(evcoord.values) * rng.uniform(0.01, 0.05, size=nbuf)) ** 2
+        ctx.hit('event coordinate with variances')
+    weights = sc.array(dims=[edim], values=rng.random(nbuf), variances=rng.random(nbuf), unit='counts',
                        dtype=['float64', 'float32'][rng.integers(0, 2)])
-    tab = sc.DataArray(weights, coords={origin: evcoord, 'unrelated_ev': sc.arange('event', nbuf, unit=None)},
-                       masks={'evmask': sc.array(dims=['event'], values=rng.random(nbuf) < 0.2)})
+    tab = sc.DataArray(weights, coords={origin: evcoord, 'unrelated_ev': sc.arange(edim, nbuf, unit=None)},
+                       masks={'evmask': sc.array(dims=[edim], values=rng.random(nbuf) < 0.2)})
     dims = ['pixel', origin] if nt else ['pixel']
     shape = (npix, nt) if nt else (npix,)
-    binned = sc.bins(begin=sc.array(dims=dims, values=begin.reshape(shape), unit=None, dtype='int64'),
-                     end=sc.array(dims=dims, values=end.reshape(shape), unit=None, dtype='int64'),
-                     dim='event', data=tab)
+    # pixel of every entry of the event buffer (entries outside all bins: pixel 0, never looked at)
+    pix_of_buf = np.zeros(nbuf, dtype=np.int64)
+    for j in range(nbins):
+        pix_of_buf[begin[j]:end[j]] = j // (nt or 1)
     coords = {'unrelated_px': sc.array(dims=['pixel'], values=rng.random(npix), unit='K')}
     noscatter = bool(mode) and 'noscatter' in mode
     geom_kind = force.get('geom')
@@ -821,6 +1008,37 @@ def gen(rng, ctx, force=None):
         ev = np.sort(rng.uniform(lo * 0.9, hi * 1.1 + 1, size=nt + 1))
         coords[origin] = sc.array(dims=[origin], values=ev, unit=ounit)
     masks = {'pxmask': sc.array(dims=['pixel'], values=rng.random(npix) < 0.3)}
+    if nt and (force or rng.random() < 0.5):
+        # masks in every shape a grid allows: along the origin dimension (which the conversion renames) and 2-d
+        masks['binmask'] = sc.array(dims=[origin], values=rng.random(nt) < 0.3)
+        masks['gridmask'] = sc.array(dims=dims, values=rng.random(shape) < 0.3)
+        ctx.hit('masks along the origin dimension and on the 2-d grid')
+    # ---- event coordinates next to the origin whose names mean something to the conversion graphs
+    by = force.get('bystander')
+    bystander = None
+    if by:
+        scatter_ = not noscatter
+        bystander = pick_bystander(by['names'], by['kind'], coords, origin, tgt, scatter_)
+        if bystander is not None:
+            if by['kind'] == 'shadow':
+                # every event carries its pixel's value: whichever level the conversion reads, the result is the same
+                dv = coords[bystander]
+                src = np.asarray(dv.values)
+                bvals = src[pix_of_buf] if dv.ndim else np.broadcast_to(src, (nbuf, *src.shape)).copy()
+                bunit = dv.unit
+                ctx.hit('event coordinate shadowing the dense one')
+                ctx.hit('event coordinate shadowing the dense one:' + bystander)
+            else:
+                bunit = RESERVED[bystander]
+                bvals = (rng.normal(size=(nbuf, 3)) + [0.2, 0.1, 2.0]) if bystander in VECTOR_NAMES else rng.uniform(0.5, 3.0, size=nbuf)
+                ctx.hit('bystander event coordinate with a reserved name')
+                ctx.hit('bystander event coordinate:' + bystander)
+            tab.coords[bystander] = (sc.vectors(dims=[edim], values=np.asarray(bvals).reshape(-1, 3), unit=bunit)
+                                     if bystander in VECTOR_NAMES else
+                                     sc.array(dims=[edim], values=bvals, unit=bunit))
+    binned = sc.bins(begin=sc.array(dims=dims, values=begin.reshape(shape), unit=None, dtype='int64'),
+                     end=sc.array(dims=dims, values=end.reshape(shape), unit=None, dtype='int64'),
+                     dim=edim, data=tab)
     da = sc.DataArray(binned, coords=coords, masks=masks)
     # ---- views (no copy): what the user gets from transposing / slicing a larger object
     if layout == 'transposed':
@@ -831,11 +1049,51 @@ def gen(rng, ctx, force=None):
         da = da[origin, int(rng.integers(1, nt)):]
     elif layout == 'one_pixel':
         da = da['pixel', int(rng.integers(1, npix))]
+    pdim = force.get('pixel_dim')
+    if pdim and 'pixel' in da.dims and pdim not in da.dims:
+        da = da.rename_dims({'pixel': pdim})
+        ctx.hit('pixel dimension named like an internal / coordinate name')
+        ctx.hit('pixel dimension named:' + pdim)
+    if edim != 'event':
+        ctx.hit('event-buffer dimension named:' + edim)
     nevents = int(da.bins.size().data.sum().value) if layout in NONCOMPACT else int(sizes.sum())
     shape_class = f'{da.data.ndim}-d'
     sig = (origin, tgt, mode, layout, evdt, geom_kind, 'edges' if edges else 'noedges', ounit, lunit, shape_class)
     return da, origin, tgt, sig, {'layout': layout, 'nevents': nevents, 'geometry': geom_kind,
-                                  'mode': mode, 'edges': edges}
+                                  'mode': mode, 'edges': edges, **({'bystander': bystander} if by else {})}
+
+
+# names the conversion graphs know (unit of a bystander with that name)
+RESERVED = {'final_energy': 'meV', 'incident_energy': 'meV', 'wavelength': 'angstrom', 'energy': 'meV', 'dspacing': 'angstrom',
+            'Q': '1/angstrom', 'energy_transfer': 'meV', 'L1': 'm', 'L2': 'm', 'Ltotal': 'm', 'two_theta': 'rad',
+            'incident_beam': 'm', 'scattered_beam': 'm', 'position': 'm', 'sample_position': 'm', 'source_position': 'm'}
+VECTOR_NAMES = ('incident_beam', 'scattered_beam', 'position', 'sample_position', 'source_position')
+
+
+def pick_bystander(names, kind, coords, origin, tgt, scatter):
+    """First of ``names`` that, as an event coordinate next to the dense ``coords``, is
+    kind 'unrelated': not read and not produced by the conversion (derivation model, not the package);
+    kind 'shadow':    read by the conversion and also present as a dense per-pixel / scalar coordinate."""
+    from rv.oracle import convgraph as G
+    dense = {k for k in coords if k != origin}
+    for name in names:
+        if name in (origin, tgt):
+            continue
+        try:
+            mode = G.energy_mode(dense, origin, tgt)
+            table = G.rules(origin, tgt, scatter, mode)
+            present = dense | {origin, name}
+            leaves = G.used_inputs(tgt, present, table)
+            planned = G.plan(tgt, present, table)
+        except (G.Refuse, KeyError):
+            continue
+        if G.node_of(name) in planned:
+            continue
+        if kind == 'unrelated' and name not in leaves:
+            return name
+        if kind == 'shadow' and name in leaves and name in dense and set(coords[name].dims) <= {'pixel'}:
+            return name
+    return None
 
 
 # ------------------------------------------------- forced part of every shard ---
@@ -871,15 +1129,250 @@ def forced_cases(index):
     return out
 
 
+# ------------------------------------------------- programs (call sequences) ---
+# (c) RE-CONVERSION: what a re-run notebook cell / a recalibration does -- the converted object goes into convert again:
+#     same target, another target, the first target as origin (chained), a by-product of the first call as target.
+#     Every call is judged by the monitor like any other; what is new is the INPUT of the later calls (event buffer
+#     that already carries the target / by-products, renamed dimension, unaligned inputs).
+RECONVERT_TARGETS = [('tof', 'wavelength'), ('tof', 'dspacing'), ('tof', 'energy'), ('tof', 'Q'),
+                     ('tof', 'energy_transfer:direct'), ('tof', 'energy_transfer:indirect'),
+                     ('wavelength', 'Q'), ('wavelength', 'dspacing')]
+RECONVERT_LAYOUTS = ['2d', 'some_empty', 'slice_tof', '1d', 'transposed', 'permuted', 'gaps', 'slice_pixels']
+# (d) BYSTANDERS: event coordinates next to the origin with names the graphs know
+BYSTANDER_FIXED = [(('tof', 'energy_transfer:direct'), 'final_energy'), (('tof', 'energy_transfer:indirect'), 'incident_energy'),
+                   (('tof', 'energy'), 'incident_energy'), (('tof', 'energy'), 'final_energy'),
+                   (('wavelength', 'energy'), 'incident_energy'), (('wavelength', 'energy'), 'final_energy')]
+BYSTANDER_CONVERSIONS = [('tof', 'wavelength'), ('tof', 'dspacing'), ('tof', 'Q'), ('wavelength', 'dspacing'), ('wavelength', 'Q'),
+                         ('tof', 'energy_transfer:direct'), ('tof', 'energy_transfer:indirect'), ('tof', 'energy'),
+                         ('wavelength', 'energy'), ('tof', 'hkl:'), ('tof', 'geom:two_theta')]
+SHADOW_CASES = [(('tof', 'energy_transfer:direct'), 'reduced', ['incident_energy']),
+                (('tof', 'energy_transfer:indirect'), 'reduced', ['final_energy']),
+                (('tof', 'energy_transfer:direct'), 'reduced', ['L2', 'L1']),
+                (('tof', 'wavelength'), 'reduced', ['Ltotal']), (('tof', 'dspacing'), 'reduced', ['two_theta', 'Ltotal']),
+                (('wavelength', 'Q'), 'reduced', ['two_theta']), (('wavelength', 'dspacing'), 'reduced', ['two_theta']),
+                (('tof', 'energy'), 'reduced', ['Ltotal'])]
+# (event-level *vectors* shadowing the dense beams / positions are per-event geometry, outside "geometry per pixel"; the
+# unchanged tree refuses some of them: two_theta() adds the incident to the scattered beam in place)
+# (e) dimension names the implementation (scipp / scippneutron) uses itself, and names of coordinates of the graphs
+PIXEL_DIMS = ['event', 'row', 'x', 'rotation', 'slit', 'vertex', 'cutout', 'range', 'spectrum', 'detector_number',
+              'wavelength', 'dspacing', 'Ltotal', 'L2', 'position', 'two_theta', 'energy_transfer',
+              'c0ffee00-dead-4bee-f00d-0123456789ab']
+BUFFER_DIMS = ['row', 'x', 'pixel', 'tof', 'dspacing', 'Ltotal', 'wavelength', 'time']
+DIM_TARGETS = [('tof', 'dspacing'), ('tof', 'wavelength'), ('tof', 'Q'), ('tof', 'energy'), ('tof', 'energy_transfer:direct')]
+VARIANCE_TARGETS = sorted(POWER) + [('tof', 'energy_transfer:direct'), ('tof', 'energy_transfer:indirect')]
+CONVENTIONS = ['positional', 'keyword', 'mixed']
+ARGTYPES = ['str', 'np.str_', '(str, Enum) member', 'StrEnum member', 'str subclass']
+
+
+class _Str(str):
+    __slots__ = ()
+
+
+def as_argtype(name, kind):
+    import enum
+    if kind == 'np.str_':
+        return np.str_(name)
+    if kind == '(str, Enum) member':
+        return enum.Enum('Coordinate', [(name, name)], type=str)[name]
+    if kind == 'StrEnum member':
+        return enum.StrEnum('CoordinateName', [(name, name)])[name]
+    if kind == 'str subclass':
+        return _Str(name)
+    return name
+
+
+def call_convert(scn, ctx, k, da, origin, tgt, scatter):
+    """scn.convert in every calling convention its signature allows, with every kind of str / bool it documents."""
+    conv, kind = CONVENTIONS[k % 3], ARGTYPES[(k // 3) % 5]
+    o, t = as_argtype(origin, kind), as_argtype(tgt, kind)
+    sct = np.bool_(scatter) if (k // 15) % 2 else bool(scatter)
+    ctx.hit('call:' + conv)
+    ctx.hit('argument type:' + kind)
+    ctx.hit('scatter given as ' + ('np.bool_' if isinstance(sct, np.bool_) else 'bool'))
+    if conv == 'positional':
+        return scn.convert(da, o, t, sct)
+    if conv == 'keyword':
+        return scn.convert(scatter=sct, target=t, origin=o, data=da)
+    return scn.convert(da, o, target=t, scatter=sct)
+
+
+def as_dataset(da, origin, rng, with_dense):
+    """The data array and a second measurement on the same pixels (other events) as items of one dataset."""
+    other = da.copy()
+    tab = other.bins.constituents['data']
+    ov = np.asarray(tab.coords[origin].values)
+    if ov.size:
+        tab.coords[origin].values = np.roll(ov, 1 + int(rng.integers(0, 5)))
+        tab.data.values = np.asarray(tab.data.values)[::-1].copy()
+    items = {'sample': da, 'vanadium': other}
+    if with_dense:
+        items['normalisation'] = sc.DataArray(sc.array(dims=list(da.dims), values=rng.random(da.shape), unit='counts'),
+                                              coords=dict(da.coords.items()), masks=dict(da.masks.items()))
+    return sc.Dataset(items)
+
+
+def other_target(da, origin, tgt, k):
+    inel = any(n in da.coords for n in ('incident_energy', 'final_energy'))
+    cands = {'tof': ['wavelength', 'dspacing', 'Q', 'energy'], 'wavelength': ['Q', 'dspacing', 'energy']}[origin]
+    cands = [c for c in cands if c != tgt and not (c == 'energy' and inel)]
+    return cands[k % len(cands)]
+
+
+def look_at(obj):
+    """What a user does with an object between two calls: display, copy, compare."""
+    import copy
+    repr(obj), str(obj)
+    try:
+        obj._repr_html_()
+    except Exception:  # noqa: BLE001  display is not what is judged here
+        pass
+    c1, c2, c3 = copy.copy(obj), copy.deepcopy(obj), obj.copy(deep=False)
+    sc.identical(obj, c2), sc.identical(c1, c3, equal_nan=True)
+    for it in ([obj] if isinstance(obj, sc.DataArray) else list(obj.values())):
+        if it.bins is not None:
+            it.bins.size(), dict(it.bins.coords.items()), it.bins.constituents
+    del c1, c2, c3
+
+
+def reconversion_program(scn, mon, ctx, rng, k, index, da, origin, tgt, scatter, meta):
+    """convert, then convert the converted object again (several ways); each call judged by the monitor."""
+    def conv(obj, o, t, what, j=0):
+        mon.meta = dict(meta, program='re-conversion', step=what)
+        try:
+            return call_convert(scn, ctx, k + j, obj, o, t, scatter)
+        except Exception:  # noqa: BLE001  judged by the monitor
+            return None
+
+    first = conv(da, origin, tgt, 'first conversion')
+    if first is None:
+        return
+    # the same input object a second time: same result
+    again = conv(da, origin, tgt, 'same input converted a second time', 1)
+    ctx.event('second use of the same input')
+    if again is None or fp(again) != fp(first):
+        ctx.violation('not_repeatable', 'converting the same (unmodified) object twice gave two different results',
+                      {**meta, 'origin': origin, 'target': tgt, 'input': describe(da)})
+    if (k + index) % 2:
+        look_at(first)
+        ctx.hit('display / copy / comparison of a result between two conversions')
+    snapshot = fp(first)
+    same = conv(first, origin, tgt, 'converted object converted again, same target', 2)
+    ctx.hit('re-conversion: same target')
+    if same is not None:
+        # the target is there already (and is what the dense formula gives): nothing may change
+        ctx.event('re-conversion result')
+        if fp([it.bins.constituents['data'].coords[tgt].values[event_index(it.data)] for _, it in binned_items(same)]) != \
+                fp([it.bins.constituents['data'].coords[tgt].values[event_index(it.data)] for _, it in binned_items(first)]):
+            ctx.violation('not_repeatable', f'event {tgt} changed when the converted object was converted again',
+                          {**meta, 'origin': origin, 'target': tgt, 'input': describe(first)})
+    other = other_target(da if isinstance(da, sc.DataArray) else da['sample'], origin, tgt, k + index)
+    conv(first, origin, other, 'converted object converted again, another target', 3)
+    ctx.hit('re-conversion: another target')
+    if tgt in ('wavelength',) and origin == 'tof':
+        nxt = other_target(da if isinstance(da, sc.DataArray) else da['sample'], 'wavelength', 'wavelength', k + index)
+        conv(first, tgt, nxt, 'chained: the first target is the origin of the next conversion', 4)
+        ctx.hit('chained conversion: result fed back with its target as origin')
+    if tgt in ('Q', 'dspacing') and origin == 'tof':
+        # the first call left by-products in the event buffer (wavelength for Q) or could have: ask for one
+        conv(first, origin, 'wavelength', 'converted object converted again, target = possible by-product', 5)
+        ctx.hit('re-conversion: target that the first call may have left as a by-product')
+    if fp(first) != snapshot:
+        # (each call reports its own input_modified; this is the sum over the sequence)
+        ctx.count('re-conversion: first result changed during the sequence')
+
+
+def graph_route(scn, mon, ctx, k, da, origin, tgt, scatter, meta):
+    """The same conversion without convert(): transform_coords with the graphs / kernels the package documents."""
+    from scippneutron.conversion import graph as GR
+    from scippneutron.conversion import tof as KT
+    route = k % 3
+    if route == 0:
+        how = 'transform_coords(deduce_conversion_graph(...))'
+        fn = lambda: da.transform_coords(tgt, graph=scn.deduce_conversion_graph(da, origin, tgt, scatter))  # noqa: E731
+    elif route == 1:
+        mode = ('direct_inelastic' if 'incident_energy' in da.coords else 'indirect_inelastic') if tgt == 'energy_transfer' else 'elastic'
+        how = 'transform_coords(conversion_graph(...))'
+        fn = lambda: da.transform_coords(tgt, graph=scn.conversion_graph(origin, tgt, scatter, mode))  # noqa: E731
+    else:
+        # the kernels as nodes of a user's own graph: every parameter of a node is looked up as a coordinate
+        kern = {('tof', 'wavelength'): KT.wavelength_from_tof, ('tof', 'energy'): KT.energy_from_tof,
+                ('tof', 'dspacing'): KT.dspacing_from_tof, ('wavelength', 'energy'): KT.energy_from_wavelength,
+                ('wavelength', 'dspacing'): KT.dspacing_from_wavelength, ('wavelength', 'Q'): KT.Q_from_wavelength,
+                ('tof', 'Q'): KT.Q_from_wavelength,
+                ('tof', 'energy_transfer'): (KT.energy_transfer_direct_from_tof if 'incident_energy' in da.coords
+                                             else KT.energy_transfer_indirect_from_tof)}[(origin, tgt)]
+        g = {**GR.beamline.beamline(scatter=True), tgt: kern}
+        if (origin, tgt) == ('tof', 'Q'):
+            g['wavelength'] = KT.wavelength_from_tof
+        how = "transform_coords(user graph with the package's kernels as nodes)"
+        fn = lambda: da.transform_coords(tgt, graph=g)  # noqa: E731
+    ctx.hit('route:' + how)
+    mon.meta = dict(meta, program='graph route')
+    mon.observe(da, origin, tgt, scatter, fn, how)
+
+
+def forced_programs(index):
+    """Deterministic part of every shard beyond the single-call sweeps of forced_cases()."""
+    out = []
+    for j in range(4):
+        # half of the targets per shard (all of them in any two neighbouring shards)
+        t = RECONVERT_TARGETS[(4 * index + j) % len(RECONVERT_TARGETS)]
+        out.append({'program': 'reconvert', 'target': t, 'layout': RECONVERT_LAYOUTS[(j + index) % len(RECONVERT_LAYOUTS)],
+                    'dataset': (j + index // 2) % 2 == 0})
+    names = list(RESERVED)
+    for j, (t, name) in enumerate(BYSTANDER_FIXED):
+        out.append({'program': 'bystander', 'target': t, 'layout': ['1d', 'some_empty', '2d'][(j + index) % 3],
+                    'bystander': {'names': [name], 'kind': 'unrelated'}, 'dataset': (j + index) % 4 == 0})
+    for j, name in enumerate(names):
+        # every reserved name (half of them per shard), with the first conversion (rotating with the shard) that does
+        # not read / produce it
+        if (j + index) % 2:
+            continue
+        convs = [BYSTANDER_CONVERSIONS[(j + index + i) % len(BYSTANDER_CONVERSIONS)] for i in range(len(BYSTANDER_CONVERSIONS))]
+        out.append({'program': 'bystander', 'targets': convs, 'layout': ['1d', 'some_empty', '2d', 'gaps'][(j + index) % 4],
+                    'geom': ['positions', 'reduced', 'beams'][(j + index) % 3],
+                    'bystander': {'names': [name], 'kind': 'unrelated'}})
+    for j, (t, g, nm) in enumerate(SHADOW_CASES):
+        out.append({'program': 'bystander', 'target': t, 'geom': g, 'layout': ['1d', '2d', 'some_empty'][(j + index) % 3],
+                    'bystander': {'names': nm[(index % len(nm)):] + nm[:(index % len(nm))], 'kind': 'shadow'}})
+    for j, t in enumerate(VARIANCE_TARGETS):
+        out.append({'program': 'single', 'target': t, 'ev_variances': True,
+                    'layout': ['1d', '2d', 'some_empty', 'permuted'][(j + index) % 4], 'hit': 'variances x ' + target_label(t)})
+    for j in range(3):
+        nm = PIXEL_DIMS[(3 * index + j) % len(PIXEL_DIMS)]
+        out.append({'program': 'single', 'target': DIM_TARGETS[(j + index) % len(DIM_TARGETS)], 'pixel_dim': nm,
+                    'layout': ['1d', '2d', 'some_empty'][(j + index) % 3]})
+    out.append({'program': 'single', 'target': DIM_TARGETS[index % len(DIM_TARGETS)], 'buffer_dim': BUFFER_DIMS[index % len(BUFFER_DIMS)],
+                'layout': ['2d', '1d'][(index // 2) % 2]})
+    for j, t in enumerate([('tof', 'wavelength'), ('tof', 'dspacing'), ('tof', 'energy'), ('wavelength', 'Q'),
+                           ('tof', 'energy_transfer:direct'), ('tof', 'energy_transfer:indirect')]):
+        out.append({'program': 'graph', 'target': t, 'layout': ['2d', '1d', 'some_empty'][(j + index) % 3], 'route': j + index,
+                    # the graph is deduced from the same data: bystanders with reserved names here too
+                    **({'bystander': {'names': ['final_energy' if 'direct' in t[1] else 'incident_energy'], 'kind': 'unrelated'}}
+                       if t[1].startswith('energy_transfer') else
+                       {'bystander': {'names': ['L2', 'incident_energy', 'dspacing'][(j + index) % 3:] + ['energy_transfer'],
+                                      'kind': 'unrelated'}})})
+    for j in range(2):
+        out.append({'program': 'after_exception', 'target': RECONVERT_TARGETS[(j + index) % len(RECONVERT_TARGETS)],
+                    'layout': ['2d', '1d'][j]})
+    return out
+
+
+HEAVY = [(3, 2 ** 20 + 7), (3, 3 * 400001)]      # (pixels, events): one conversion each, on a shard of its own
+
+
 def plan(tier, seed):
     n = 8 if tier == 'quick' else 16
-    return [{'cases': 300 if tier == 'quick' else 6000} for _ in range(n)]
+    return [{'cases': 300 if tier == 'quick' else 6000} for _ in range(n)] + [{'kind': 'heavy', 'cases': len(HEAVY)}]
 
 
 def requirements(tier):
     return {'events': {'convert(binned)': 200, 'twin': 200, 'edges': 10, 'gravity_twin': 50, 'pixel_twin': 500, 'nan_rule': 10,
                        'geometry_twin': 20, 'definition': 200, 'inelastic_definition': 50, 'geometry_definition': 20,
-                       'qvec_definition': 20},
+                       'qvec_definition': 20, 'dataset item': 20, 'bystander event coordinate judged': 50,
+                       'event coordinate shadowing a dense one': 8, 'twin variances': 20, 'definition variances': 20,
+                       'second use of the same input': 20, 're-conversion result': 20, 'refused request': 8,
+                       'heavy conversion': len(HEAVY)},
             'forced': ['layout:' + x for x in LAYOUTS] + ['evdtype:float32', 'evdtype:int64', 'mode:direct', 'mode:indirect']
             + ['gravity wavelength unit:' + u for u in ('angstrom', 'nm', 'm')]
             + ['binned gravity with per-pixel incident beams', 'hkl-family target',
@@ -889,8 +1382,61 @@ def requirements(tier):
             + [frame_class('beams', f) for f in FRAMES]
             + ['frame sweep target:' + target_label(t) for t in FRAME_TARGETS]
             + [f'layout:{x} x {t}' for x in NONCOMPACT
-               for t in ('energy_transfer:direct', 'energy_transfer:indirect', 'elastic target')],
+               for t in ('energy_transfer:direct', 'energy_transfer:indirect', 'elastic target')]
+            # round 6
+            + ['re-conversion: same target', 're-conversion: another target',
+               'chained conversion: result fed back with its target as origin',
+               're-conversion: target that the first call may have left as a by-product',
+               'display / copy / comparison of a result between two conversions',
+               'container:Dataset', 'container:Dataset with a dense item', 're-conversion of a Dataset',
+               'bystander event coordinate with a reserved name', 'event coordinate shadowing the dense one',
+               'bystander event coordinate in a Dataset',
+               'masks along the origin dimension and on the 2-d grid', 'event coordinate with variances',
+               'pixel dimension named like an internal / coordinate name', 'conversion repeated after a refused request',
+               'heavy: 1048583 events', 'heavy: 1200003 events']
+            + ['re-conversion x ' + target_label(t) for t in RECONVERT_TARGETS]
+            + ['bystander event coordinate:' + n for n in RESERVED]
+            + [f'bystander {n} x {target_label(t)}' for t, n in BYSTANDER_FIXED]
+            + ['variances x ' + target_label(t) for t in VARIANCE_TARGETS]
+            + ['pixel dimension named:' + n for n in PIXEL_DIMS] + ['event-buffer dimension named:' + n for n in BUFFER_DIMS]
+            + ['call:' + c for c in CONVENTIONS] + ['argument type:' + a for a in ARGTYPES]
+            + ['scatter given as bool', 'scatter given as np.bool_']
+            + ['route:transform_coords(deduce_conversion_graph(...))', 'route:transform_coords(conversion_graph(...))',
+               "route:transform_coords(user graph with the package's kernels as nodes)"],
             'counters': {'events_compared': 10000, 'definition events judged': 10000}}
+
+
+def run_heavy(shard, ctx, scn, mon, tr):
+    """Sizes beyond any block / chunk size an implementation may have: one conversion each."""
+    with tr:
+        for k, (npix, nev) in enumerate(HEAVY):
+            rng = np.random.Generator(np.random.PCG64([shard['seed'], 1000 + k, 6]))
+            sizes = rng.multinomial(nev, rng.dirichlet(np.ones(npix)))
+            end = np.cumsum(sizes)
+            target = [('tof', 'dspacing', None), ('tof', 'energy_transfer', 'direct')][(k + shard['seed']) % 2]
+            tab = sc.DataArray(sc.array(dims=['event'], values=rng.random(nev), variances=rng.random(nev), unit='counts'),
+                               coords={'tof': sc.array(dims=['event'], values=rng.uniform(500.0, 50000.0, size=nev), unit='us'),
+                                       'unrelated_ev': sc.arange('event', nev, unit=None)},
+                               masks={'evmask': sc.array(dims=['event'], values=rng.random(nev) < 0.2)})
+            coords = {'source_position': sc.vector([0.0, 0.0, -float(rng.uniform(5, 50))], unit='m'),
+                      'sample_position': sc.vector([0.0, 0.0, 0.0], unit='m'),
+                      'position': sc.vectors(dims=['pixel'], values=rng.normal(size=(npix, 3)) * 2 + [0, 0.3, 1.0], unit='m'),
+                      'unrelated_px': sc.array(dims=['pixel'], values=rng.random(npix), unit='K')}
+            if target[2]:
+                coords['incident_energy'] = sc.scalar(float(rng.uniform(5, 500)), unit='meV')
+            da = sc.DataArray(sc.bins(begin=sc.array(dims=['pixel'], values=end - sizes, unit=None, dtype='int64'),
+                                      end=sc.array(dims=['pixel'], values=end, unit=None, dtype='int64'), dim='event', data=tab),
+                              coords=coords, masks={'pxmask': sc.array(dims=['pixel'], values=rng.random(npix) < 0.3)})
+            mon.meta = {'program': 'heavy', 'nevents': nev}
+            ctx.hit(f'heavy: {nev} events')
+            before = ctx.events.get('twin', 0)
+            try:
+                scn.convert(da, 'tof', target[1], scatter=True)
+            except Exception:  # noqa: BLE001  judged by the monitor
+                pass
+            if ctx.events.get('twin', 0) > before:
+                ctx.event('heavy conversion')
+            ctx.case(('heavy', target[1], nev))
 
 
 def run(shard, ctx):
@@ -901,6 +1447,9 @@ def run(shard, ctx):
     mon = Monitor(ctx, scn)
     tr = Tracer()
     tr.watch(CV.convert, 'convert', on_start=mon.on_start, on_return=mon.on_return)
+    if shard.get('kind') == 'heavy':
+        run_heavy(shard, ctx, scn, mon, tr)
+        return
     from scippneutron.conversion import beamline as KB
     gmon = GravityMonitor(ctx, KB)
     for nm in ('scattering_angles_with_gravity', 'scattering_angle_in_yz_plane'):
@@ -917,33 +1466,89 @@ def run(shard, ctx):
                 except Exception:  # noqa: BLE001  judged by the monitor
                     pass
                 ctx.case((nm, *sig))
-        forced = forced_cases(shard['index'])
+        forced = forced_cases(shard['index']) + forced_programs(shard['index'])
         for i in range(shard['cases']):
             force = forced[i] if i < len(forced) else None
+            if force and 'targets' in force:
+                # the first conversion of the list for which the named event coordinate is a bystander
+                da = None
+                for t in force['targets']:
+                    probe = np.random.Generator(np.random.PCG64([shard['seed'], shard['index'], 6, i]))
+                    if t[1] == 'hkl:' and force['geom'] == 'reduced':
+                        continue      # Q vectors need beams
+                    da, origin, tgt, sig, meta = gen(probe, _NoCtx(), dict(force, target=t))
+                    if meta.get('bystander'):
+                        force = dict(force, target=t)
+                        break
             da, origin, tgt, sig, meta = gen(rng, ctx, force)
-            if force:
+            program = force.get('program') if force else None
+            if force and not program:
                 ctx.hit(force['hit'] if 'hit' in force else 'frame sweep target:' + target_label(force['target']))
-            mon.meta = meta
+            elif force and 'hit' in force:
+                ctx.hit(force['hit'])
             scatter = not (meta['mode'] and 'noscatter' in meta['mode'])
+            obj = da
+            container = 'DataArray'
+            if (force and force.get('dataset')) or (not force and rng.random() < 0.06):
+                dense_item = bool(meta['edges']) and (i + shard['index']) % 2 == 0
+                obj = as_dataset(da, origin, rng, dense_item)
+                container = 'Dataset'
+                ctx.hit('container:Dataset' + (' with a dense item' if dense_item else ''))
+            sig = (*sig, container)
+            meta = dict(meta, container=container)
+            mon.meta = meta
             ctx.hit('layout:' + meta['layout'])
             ctx.hit('evdtype:' + sig[4])
             if meta['mode']:
                 ctx.hit('mode:' + meta['mode'])
             before = ctx.n_violations
-            try:
-                scn.convert(da, origin, tgt, scatter=scatter)
-            except Exception:  # noqa: BLE001  judged by the monitor
-                pass
+            if program == 'reconvert':
+                ctx.hit('re-conversion x ' + target_label(force['target']))
+                if container == 'Dataset':
+                    ctx.hit('re-conversion of a Dataset')
+                reconversion_program(scn, mon, ctx, rng, i, shard['index'], obj, origin, tgt, scatter, meta)
+                sig = ('re-conversion', *sig)
+            elif program == 'graph':
+                graph_route(scn, mon, ctx, force['route'], da, origin, tgt, scatter, meta)
+                sig = ('graph route', force['route'] % 3, *sig)
+            else:
+                if program == 'bystander' and meta.get('bystander'):
+                    if force['bystander']['kind'] == 'unrelated' and 'targets' not in force:
+                        ctx.hit(f'bystander {meta["bystander"]} x {target_label(force["target"])}')
+                    if container == 'Dataset':
+                        ctx.hit('bystander event coordinate in a Dataset')
+                    sig = ('bystander', force['bystander']['kind'], meta['bystander'], *sig)
+                if program == 'after_exception':
+                    # a request the derivation model refuses (no rule makes this target), caught; then the real one
+                    mon.expect_refusal = True
+                    try:
+                        call_convert(scn, ctx, i, obj, origin, ['no_such_coordinate', 'tof_', 'Wavelength'][(i + shard['index']) % 3], scatter)
+                    except Exception:  # noqa: BLE001  counted by the monitor
+                        pass
+                    mon.expect_refusal = False
+                    ctx.hit('conversion repeated after a refused request')
+                    sig = ('after a refused request', *sig)
+                try:
+                    call_convert(scn, ctx, i, obj, origin, tgt, scatter)
+                except Exception:  # noqa: BLE001  judged by the monitor
+                    pass
             ctx.case(sig, trivial=(meta['nevents'] == 0 and meta['layout'] != 'all_empty'))
             if i < 2 or (ctx.n_violations > before and len(ctx.samples) < 5):
-                ctx.sample({'signature': sig, **meta, 'input': describe(da)})
+                ctx.sample({'signature': sig, **meta, 'input': describe(obj)})
+
+
+class _NoCtx:
+    def hit(self, *a, **k):
+        pass
 
 
 TECHNIQUE = ('runtime monitors (sys.monitoring) on convert() and on the gravity kernels for binned data: before/after '
              'fingerprints of the binned input and its parts; differential against the dense conversion of the flat '
              'per-event twin and of each pixel on its own, bit for bit; independent long-double definitions per event '
              '(elastic closed forms with L1/L2/two_theta from positions or beams, energy balance and NaN rule for '
-             'inelastic targets, Q vector, geometry targets)')
+             'inelastic targets, Q vector, geometry targets); which coordinates a conversion reads (everything else must '
+             'come through unchanged and is left out of the twins) is decided by the derivation model rv.oracle.convgraph; '
+             'call-sequence programs (re-conversion, chaining, second use) judged call by call')
 LEVEL_TEXT = ('exploration: for every observed convert() call on binned data the monitor rebuilds two dense twins '
               '(flat event buffer with pixel geometry gathered per event; each pixel alone with scalar geometry) and '
               'requires the event coordinate of the result to equal the dense result bit for bit, the bin-edge '
@@ -953,8 +1558,12 @@ LEVEL_TEXT = ('exploration: for every observed convert() call on binned data the
               "coordinate and the pixel's positions / beams / reduced geometry (1e-11, float32 1e-5; energy transfer "
               'within the forward bound of its definition; angles below 1e-3 rad not judged), and weights, variances, event order, bin membership, masks, unrelated coordinates '
               'and the input object to be unchanged (fingerprints). The gravity kernels with binned wavelength are '
-              'judged the same way (4 eps when beams vary per pixel). Sampled layouts, not a proof.')
+              'judged the same way (4 eps when beams vary per pixel). Unrelated = every coordinate (event or dense, '
+              'whatever its name) that the derivation model does not list as read or produced by the request. Variances of '
+              'an event coordinate: bit-equal to the dense twin and equal to (p y / x)^2 var(x) for the elastic power '
+              'laws (float32 results that are not finite are counted, not judged). Sampled layouts, not a proof.')
 LEVEL_NOTE = ('trusted: the dense kernels for the bit-for-bit comparison (decided by C01/C03/C05), scipp binned '
               'containers, elementwise IEEE arithmetic being identical in binned and dense evaluation; numpy long double '
-              'and rv.oracle.{si,geom} for the definitions')
+              'and rv.oracle.{si,geom} for the definitions; rv.oracle.convgraph (decided against the package by C02) '
+              'for the set of coordinates a request reads')
 DESIGN_REF = 'DESIGN.md section 4, C06'
